@@ -74,6 +74,14 @@ pub fn valid_case(cx: &mut Ctx, n: u64, case: &Value) {
                             else { false };
                         if ok { cx.ok("reported_error_is_real"); } else { cx.bad("C14", "reported_error_is_real", case, json!({"error": e, "all_errors": errs})); }
                     }
+                    // the other entry points of the Validation trait: check_validation (first error or Ok) and visit_validation
+                    {
+                        let first = guard(|| p.check_validation().err().map(|e| format!("{e:?}")));
+                        let mut visited: Vec<String> = vec![];
+                        let vr = guard(|| { let _ = p.visit_validation(Box::new(|e| { visited.push(format!("{e:?}")); Ok::<(), ()>(()) })); });
+                        let ok = matches!(&first, Ok(f) if f.is_none() == want && f.as_ref().map_or(true, |f| errs.first() == Some(f))) && vr.is_ok() && visited == errs;
+                        if ok { cx.ok("check_and_visit_validation"); } else { cx.bad("C14", "check_and_visit_validation", case, json!({"check_validation": format!("{first:?}"), "visited": visited, "validation_errors": errs})); }
+                    }
                     // through the Geometry enum and as a one-member MultiPolygon
                     let gv = guard(|| g.geometry().is_valid());
                     if gv == Ok(want) { cx.ok("geometry_enum_is_valid"); } else { cx.bad("C14", "geometry_enum_is_valid", case, json!({"got": format!("{gv:?}"), "want": want})); }
